@@ -37,6 +37,13 @@ thread_local! {
     static THREAD: usize = NEXT_THREAD.fetch_add(1, std::sync::atomic::Ordering::Relaxed);
 }
 
+static NEXT_EXECUTOR: std::sync::atomic::AtomicUsize = std::sync::atomic::AtomicUsize::new(1);
+
+/// A number for a new `QueuingExecutor` (its spawners and wakers carry it in their events).
+pub fn next_executor_id() -> usize {
+    NEXT_EXECUTOR.fetch_add(1, std::sync::atomic::Ordering::Relaxed)
+}
+
 pub fn ev(name: &'static str, c: usize, a: usize, b: usize, d: usize) {
     use std::io::Write;
 
